@@ -184,7 +184,9 @@ CLAIMED = {
               "invariant (unique ids, every url(#x) fill resolves to a gradient in defs, no unreferenced gradient, no href) is judged on "
               "every converted document from a generator that stresses shared references and colliding generated ids; the pipeline "
               "model is tied to the code on the same documents."),
-        note=("Trusted: Lean kernel; core axioms only; harness reference checker; lxml. One defect repaired (orphans after pruning). "
+        note=("Trusted: Lean kernel; core axioms only; harness reference checker; lxml. Defects repaired: orphans after pruning, paint "
+              "reference forms, text stroke gradients. Two recorded findings (known_findings.json, KNOWN-FINDING on every run): a paint "
+              "reference to a pattern element and a gradient written inside an anonymous symbol are left dangling. "
               "Observed and recorded in DESIGN: nested svg inside nested svg allocates the same viewport clip id twice and the "
               "conversion raises ValueError (no converted document, hence outside this property)."),
         technique="Lean 4 proof (induction over the id search, list membership) + pipeline correspondence + reference-graph search",
@@ -311,7 +313,7 @@ CLAIMED = {
               "attribToPassOn_perm (neither the order of an element's own attributes nor that of the received context matters), and "
               "attribToPassOnEl_perm (the same when the element carries a style attribute whose declarations are spelled out "
               "first: dict updates preserve permutation and key uniqueness); (c) a "
-              "translator-generated inventory of every set-order exposure, id()/hash() call, ambient-state import, functools "
+              "translator-generated inventory of every set-order exposure (with the functions that read a hash-ordered table), id()/hash() call, ambient-state import, functools "
               "cache and mutated module-/class-level container equals the reviewed one (gen_* by decide), and cache_clear is the "
               "first call of the flush. The tie: implementation output trees and Skia questions vs the model in-process, and "
               "byte outputs compared across PYTHONHASHSEED values x permuted batches (each document converted early and late) x "
